@@ -69,6 +69,9 @@ type sut struct {
 	rootOrder []string
 	recreated bool // a Recreate happened earlier in this behaviour (failures are then also C03 failures)
 	committed bool
+	// original instance kept alive next to the one recreated from its own current root: C03 says further
+	// updates on the recreated trie behave exactly as on the original, so both receive every later update
+	shadow data.Trie
 }
 
 type replayer struct {
@@ -265,6 +268,18 @@ func (rp *replayer) run(bi int, b []vtrace.Step) {
 				rp.failContents(s, b, si, "update-error", fmt.Sprintf("%s(%x) on the real trie: err=%v panic=%q", st.A, k, err, p))
 				return
 			}
+			if s.shadow != nil {
+				if st.A == "Update" {
+					v := valBytes(vtrace.Int(st.In["v"]))
+					p = safely(func() { err = s.shadow.Update(k, v) })
+				} else {
+					p = safely(func() { err = s.shadow.Delete(k) })
+				}
+				if p != "" || err != nil {
+					rp.fail(s, b, si, "C03", "C03/original-vs-recreated/update-error", fmt.Sprintf("%s(%x) fails on the original instance but not on the recreated one: err=%v panic=%q", st.A, k, err, p))
+					return
+				}
+			}
 			if s.recreated || s.committed {
 				mutatedAfterReopen = true
 			}
@@ -335,6 +350,10 @@ func (rp *replayer) run(bi int, b []vtrace.Step) {
 			if t2 == nil {
 				return
 			}
+			s.shadow = nil
+			if si > 0 && len(m) > 0 && mapKey(pairsOf(b[si-1].St["m"])) == mapKey(m) {
+				s.shadow = s.tr // recreated from the current contents: the original lives on
+			}
 			s.tr = t2
 			s.recreated = true
 		default:
@@ -369,6 +388,20 @@ func (rp *replayer) run(bi int, b []vtrace.Step) {
 	if e != "" {
 		rp.fail(s, b, last, "C02", "C02/roothash-error", "final audit RootHash: "+e)
 		return
+	}
+	if s.shadow != nil {
+		for _, k := range rp.universe {
+			g1, _ := get(s.tr, k)
+			g2, e2 := get(s.shadow, k)
+			if g1 != g2 {
+				rp.fail(s, b, last, "C03", "C03/original-vs-recreated/contents-differ", fmt.Sprintf("after the same updates Get(%x) = %d on the recreated instance and %d %s on the original", k, g1, g2, e2))
+				return
+			}
+		}
+		if hs, es := rootHash(s.shadow); es != "" || !bytes.Equal(hs, h1) {
+			rp.fail(s, b, last, "C03", "C03/original-vs-recreated/root-differs", fmt.Sprintf("after the same updates the recreated instance has root %x, the original %x %s", h1, hs, es))
+			return
+		}
 	}
 	rp.observeRoot(s, b, last, h1, exp, fmt.Sprintf("behaviour %d final state", bi))
 	var err error
